@@ -324,6 +324,7 @@ pub open spec fn one_write(before: Seq<WriteEv>, after: Seq<WriteEv>) -> bool { 
 
 // ---------------- bedgraphtobigwig ----------------
 //@extract fn bigtools/src/utils/cli/bedgraphtobigwig.rs bedgraphtobigwig
+//@rule R16
 //@presub /let chrom_map: HashMap<String, u32> = BufReader::new\(([^\n]*?)\)\s*\.lines\(\).*?\.collect\(\);/ => let sizes_file__ = \1; let chrom_map: SizeMap = env.parse_chrom_sizes(sizes_file__); min=1 count=1
 //@presub /\|\| \{\n(.*?)\n(\s*)\},\n(\s*)runtime,/ => {\n\1\n\2},\n\3runtime, env, min=2
 //@sub /Box<dyn Error>/ => AnyErr min=1
@@ -393,6 +394,7 @@ pub open spec fn one_write(before: Seq<WriteEv>, after: Seq<WriteEv>) -> bool { 
 
 // ---------------- bedtobigbed ----------------
 //@extract fn bigtools/src/utils/cli/bedtobigbed.rs bedtobigbed
+//@rule R16
 //@presub /let chrom_map: HashMap<String, u32> = BufReader::new\(([^\n]*?)\)\s*\.lines\(\).*?\.collect\(\);/ => let sizes_file__ = \1; let chrom_map: SizeMap = env.parse_chrom_sizes(sizes_file__); min=1 count=1
 //@presub /\|\| \{\n(.*?)\n(\s*)\},\n(\s*)runtime,/ => {\n\1\n\2},\n\3runtime, env, min=2
 //@presub /let autosql = match args\.autosql\.as_ref\(\) \{.*?\n        \};\n/ => let autosql = autosql_choice(env, &args.autosql, &bedpath)?;\n min=1 count=1
